@@ -35,3 +35,72 @@ Theorem C18_old_order_refuted :
   exists a b c, num_cmp_old a b = Eq /\ num_cmp_old b c = Eq /\ num_cmp_old a c <> Eq.
 Proof. exact num_cmp_old_refuted. Qed.
 Print Assumptions C18_old_order_refuted.
+
+(* the f64 view of an integer (`as f64`) is Flocq's IEEE-754 binary64 round-to-nearest-even: FlocqLink.v.
+   Flocq's real-number development rests on the standard library's classical-real axioms (the four allowed ones). *)
+From Coq Require Import Reals.
+From Flocq Require Import Core.Core IEEE754.BinarySingleNaN IEEE754.Binary IEEE754.Bits.
+From JB Require Import FlocqLink.
+
+Theorem C18_as_f64_is_flocq_nearest_even :
+  forall z : Z, (- 2 ^ 63 <= z < 2 ^ 64)%Z ->
+  Z.of_N (round_ne z) = bits_of_b64 (binary_normalize 53 1024 eq_refl eq_refl mode_NE z 0 false).
+Proof. exact round_ne_is_flocq_binary_normalize. Qed.
+Print Assumptions C18_as_f64_is_flocq_nearest_even.
+
+Theorem C18_as_f64_is_nearest_even_real :
+  forall z : Z, (- 2 ^ 63 <= z < 2 ^ 64)%Z ->
+  let f := b64_of_bits (Z.of_N (round_ne z)) in
+  B2R 53 1024 f = round radix2 (FLT_exp (-1074) 53) ZnearestE (IZR z) /\
+  is_finite 53 1024 f = true /\
+  (z <> 0%Z -> Bsign 53 1024 f = (z <? 0)%Z).
+Proof. exact round_ne_is_nearest_even. Qed.
+Print Assumptions C18_as_f64_is_nearest_even_real.
+
+Theorem C18_as_f64_views_are_flocq :
+  forall x, num_in_range x = true ->
+  match x with
+  | NInt z => Z.of_N (as_f64 x) = bits_of_b64 (binary_normalize 53 1024 eq_refl eq_refl mode_NE z 0 false)
+  | NUInt n => Z.of_N (as_f64 x) = bits_of_b64 (binary_normalize 53 1024 eq_refl eq_refl mode_NE (Z.of_N n) 0 false)
+  | NFloat b => as_f64 x = b
+  end.
+Proof. exact as_f64_is_flocq. Qed.
+Print Assumptions C18_as_f64_views_are_flocq.
+
+(* the model's reading of a Float64 bit pattern (sign, NaN, infinities, exact value scaled by 2^1074), on which the order of
+   numbers is defined, is Flocq's reading of the same pattern *)
+Theorem C18_float_reading_is_flocq :
+  forall b : N,
+  let f := b64_of_bits (Z.of_N b) in
+  Bsign 53 1024 f = f_sign b /\
+  match f_ext b with
+  | ENaN => is_nan 53 1024 f = true
+  | EPosInf => f = B754_infinity 53 1024 false
+  | ENegInf => f = B754_infinity 53 1024 true
+  | EFin z => is_finite 53 1024 f = true /\ B2R 53 1024 f = (IZR z * bpow radix2 (-1074))%R
+  end.
+Proof. exact f_ext_is_flocq. Qed.
+Print Assumptions C18_float_reading_is_flocq.
+
+(* "ordered by that value": on finite numbers the order is the order of the real numbers denoted (integers as themselves,
+   Float64 through Flocq's B2R) *)
+Theorem C18_order_is_real_order :
+  forall a b va vb, scaled a = EFin va -> scaled b = EFin vb -> num_cmp a b = Rcompare (num_R a) (num_R b).
+Proof. exact num_cmp_is_real_order. Qed.
+Print Assumptions C18_order_is_real_order.
+
+(* the same cast against the Coq standard library's executable IEEE-754 specification (Coq.Floats.SpecFloat, the functions
+   Flocq's binary_normalize is made of: FlocqLink.flocq_binary_normalize_is_specfloat): no real numbers, no axioms *)
+From JB Require SpecFloatLink.
+Theorem C18_as_f64_is_specfloat_nearest_even :
+  forall z : Z, (- 2 ^ 63 <= z < 2 ^ 64)%Z ->
+  SpecFloatLink.bits_of_SF64 (SpecFloat.binary_normalize 53 1024 z 0 false) = Z.of_N (round_ne z).
+Proof. exact SpecFloatLink.round_ne_is_specfloat. Qed.
+Print Assumptions C18_as_f64_is_specfloat_nearest_even.
+
+Theorem C18_flocq_binary_normalize_is_specfloat :
+  forall (z e : Z) (szero : bool),
+  bits_of_b64 (binary_normalize 53 1024 eq_refl eq_refl mode_NE z e szero) =
+  SpecFloatLink.bits_of_SF64 (SpecFloat.binary_normalize 53 1024 z e szero).
+Proof. exact flocq_normalize_bits_specfloat. Qed.
+Print Assumptions C18_flocq_binary_normalize_is_specfloat.
